@@ -205,16 +205,48 @@ def runCase (d : Db) (c : Case) (out : IO.FS.Stream) : IO Unit := do
     | some pm, some pm0 =>
       let e0 := pivot p pm pm0
       let mut e1 : Eqn F := { e0 with body := normalise dropTol e0.body }
-      if pe != "pe" then
-        match c.pe[pe]? with
-        | some body =>
-          let pd : Eqn F := { head := "e-", body := body, k := (c.pk[pe]?).getD zeroK }
-          let e2 := substOne "e-" pd e1
-          e1 := { e2 with body := normalise dropTol e2.body }
-        | none => pure ()
       rwDefs := rwDefs.insert m e1
     | _, _ => pure ()
   let inUse : String → Bool := fun n => c.use.contains n
+  -- electron equations of the redox couples in use (tidy_redox): derived from the database, rewritten to the masters in use
+  let plain := rwDefs
+  let plainDefs : String → Option (Eqn F) := fun n =>
+    match plain[n]? with
+    | some e => some e
+    | none => if d.masterSp.contains n then none else d.dbEqn n
+  let mut peEq : HashMap String (Eqn F) := {}
+  for (pn, _) in c.pe.toList do
+    match pn.splitOn "/" with
+    | [a, b] =>
+      let spOf : String → Option String := fun el => (d.masters.find? (fun m => m.elt == el)).map (·.species)
+      let base := (a.splitOn "(").headD a
+      let prim := (d.masters.find? (fun m => m.primary && m.elt == base)).map (·.species)
+      match spOf a, spOf b, prim with
+      | some sa, some sb, some p =>
+        match d.primaryForm sa, d.primaryForm sb with
+        | some pa, some pb =>
+          let e0 := pivot p pa pb
+          let e1 : Eqn F := { e0 with body := normalise dropTol e0.body }
+          let e2 := solveFor "e-" e1
+          match rewriteToMasters dropTol (fun n => inUse n || n == "e-") plainDefs fuelMax { e2 with body := normalise dropTol e2.body } with
+          | some e3 =>
+            peEq := peEq.insert pn e3
+            out.putStrLn s!"pex {pn} {showBody e3.body} k {showK e3.k}"
+          | none => out.putStrLn s!"pex {pn} not-reduced"
+        | _, _ => out.putStrLn s!"pex {pn} no-primary-form"
+      | _, _, _ => out.putStrLn s!"pex {pn} unknown-couple"
+    | _ => out.putStrLn s!"pex {pn} bad-name"
+  for (m, _, _, pe) in c.rw do
+    if pe != "pe" then
+      match rwDefs[m]?, peEq[pe]? with
+      | some e1, some pd =>
+        let e2 := substOne "e-" pd e1
+        rwDefs := rwDefs.insert m { e2 with body := normalise dropTol e2.body }
+      | _, _ => pure ()
+  let defs0 : String → Option (Eqn F) := fun n =>
+    match rwDefs[n]? with
+    | some e => some e
+    | none => if d.masterSp.contains n then none else d.dbEqn n
   let defs : String → Option (Eqn F) := fun n =>
     match rwDefs[n]? with
     | some e => some e
